@@ -3,7 +3,7 @@
 From Coq Require Import List Bool ZArith NArith.
 Import ListNotations.
 From Gen Require Import SelGen.
-From Model Require Import Key Sel GFI GFIEdit.
+From Model Require Import Key Sel GFI GFIEdit Derived.
 Open Scope Z_scope.
 
 (* observation of a trace: score, return value, and lookups of its choices *)
@@ -125,12 +125,12 @@ Fixpoint first_bad (g : gf) (sx : st) (ss : list step) (i : nat) : option nat :=
               if ok then first_bad g sx' r (S i) else Some i
   end.
 
-Definition gcase := (gf * list step)%type.
+Definition gcase := (dgf * list step)%type.     (* programs in derived syntax: desugared here, by the model *)
 (* flat list: case index, step index, case index, step index, ... *)
 Fixpoint gmismatches_from (n : nat) (cs : list gcase) : list nat :=
   match cs with
   | [] => []
-  | (g, ss) :: r => match first_bad g ([], []) ss 0 with
+  | (p, ss) :: r => match first_bad (desugar p) ([], []) ss 0 with
                     | None => gmismatches_from (S n) r
                     | Some i => n :: i :: gmismatches_from (S n) r
                     end
